@@ -202,7 +202,27 @@ def gen_dev3(rng):
             qs.append([base[0], base[1], base[2] + e])
         else:
             qs.append([base[i] + rng.uniform(-1.5, 1.5) for i in range(3)])
+    if faces is BOX_F:
+        # beside an edge, exactly in the plane of one of the two faces that meet there: the closest point is on the edge and the
+        # offset is perpendicular to the normal of that face
+        for _ in range(2):
+            t = rng.uniform(0.2, 1.5)
+            qs.append(rng.choice([[w + t, rng.uniform(0, h), d], [rng.uniform(0, w), h + t, d], [w, h + t, rng.uniform(0, d)], [-t, rng.uniform(0, h), 0.0]]))
     return {"k": "c16.dev3", "verts": verts, "faces": faces, "queries": qs}
+
+
+def gen_dev3_plate(rng):
+    """a flat open plate and points level with it beyond its rim (and beyond its corners): the closest point is on the border
+    and the offset lies in the plate's plane"""
+    w, h = rng.uniform(0.5, 3), rng.uniform(0.5, 3)
+    verts = [[0.0, 0.0, 0.0], [w, 0.0, 0.0], [w, h, 0.0], [0.0, h, 0.0]]
+    faces = [[0, 1, 2], [0, 2, 3]]
+    qs = []
+    for _ in range(6):
+        t = rng.uniform(0.2, 2.0)
+        qs.append(rng.choice([[w + t, rng.uniform(0, h), 0.0], [-t, rng.uniform(0, h), 0.0], [rng.uniform(0, w), h + t, 0.0], [rng.uniform(0, w), -t, 0.0],
+                              [w + t, h + rng.uniform(0.1, 1), 0.0], [w + t, rng.uniform(0, h), rng.choice([1e-9, -1e-8, 3e-7])]]))
+    return {"k": "c16.dev3", "verts": verts, "faces": faces, "queries": qs, "plate": True}
 
 
 def generate(rng, tier):
@@ -212,6 +232,8 @@ def generate(rng, tier):
         out += [gen_sds(rng), gen_tol(rng), gen_cloud(rng), gen_dist(rng)]
     for _ in range(n // 2):
         out += [gen_dev2(rng), gen_dev3(rng)]
+    for _ in range(n // 6):
+        out += [gen_dev3_plate(rng)]
     return out
 
 
@@ -235,7 +257,7 @@ def tag(c, r):
         t = sorted(set("%s%d" % (o["op"][0], e["tag"]) for o, e in zip(c["ops"], r["out"][1:])))
         return k + ":" + "".join(t)
     if k == "c16.dev2" or k == "c16.dev3":
-        return k
+        return k + (":plate" if c.get("plate") else "")
     return k + (":default-dir" if c.get("dir") is None else "")
 
 
